@@ -27,6 +27,15 @@ class PyRaise(Exception):
         self.exc = exc
 
 
+class PyRaiseIf(Exception):
+    """An external call that raises under a condition the contract names (a file that cannot be read): the statement is executed on both ways - the
+    exception under `cond`, the normal continuation under its negation (the model of the call finds the condition in the path condition the second time)."""
+
+    def __init__(self, cond, exc):
+        Exception.__init__(self, f"{exc} if {cond}")
+        self.cond, self.exc = cond, exc
+
+
 # --------------------------------------------------------------------------------------- values
 class Tup(tuple):
     pass
@@ -1242,13 +1251,23 @@ class Exec:
         m = getattr(self, "st_" + type(n).__name__, None)
         if m is None:
             raise Undecided(f"statement {type(n).__name__} at line {n.lineno}")
+        simple = isinstance(n, (ast.Assign, ast.AugAssign, ast.AnnAssign, ast.Expr, ast.Return))
+        snap = st.fork() if simple and self.k is not None and getattr(self.k, "conditional_raises", False) else None
         try:
             return m(n, st)
         except PyRaise as pr:
-            if isinstance(n, (ast.For, ast.While, ast.If, ast.Try, ast.With)):
+            if not simple and not isinstance(n, (ast.Raise, ast.Assert, ast.Delete)):
                 raise Undecided(f"{pr} raised inside the header of a compound statement at line {n.lineno}")
             self.returns.append(ReturnRec(st, None, pr.exc, n.lineno))
             return []
+        except PyRaiseIf as pr:
+            if snap is None:
+                raise Undecided(f"a call that may raise ({pr}) outside a simple statement at line {n.lineno}")
+            s_exc = snap.fork()
+            s_exc.pc.append(pr.cond)
+            self.returns.append(ReturnRec(s_exc, None, pr.exc, n.lineno))
+            snap.pc.append(z3.simplify(z3.Not(pr.cond)))
+            return self.stmt(n, snap)        # the statement again from its start, on the way on which this call does not raise
 
     def st_Expr(self, n, st):
         if isinstance(n.value, ast.Constant):
@@ -1653,9 +1672,16 @@ class Exec:
     def st_Raise(self, n, st):
         if n.exc is None:
             raise Undecided("bare raise")
-        exc = n.exc.func.id if isinstance(n.exc, ast.Call) else (n.exc.id if isinstance(n.exc, ast.Name) else None)
+        exc = n.exc.func.id if isinstance(n.exc, ast.Call) and isinstance(n.exc.func, ast.Name) else (n.exc.id if isinstance(n.exc, ast.Name) else None)
         if exc is None:
             raise Undecided("raise of expression")
+        if isinstance(n.exc, ast.Name) and not (exc[:1].isupper() and exc.endswith(("Error", "Exception", "Warning"))):
+            # `raise e` of a variable: the exception it is bound to, or - the name being unbound, as an exception variable is after its handler -
+            # UnboundLocalError
+            v = st.env.get(exc)
+            exc = v.s[1:-1] if type(v) is StrV and v.s.startswith("<") and v.s.endswith(">") else ("UnboundLocalError" if v is None else None)
+            if exc is None:
+                raise Undecided("raise of a variable that is not an exception variable")
         self.returns.append(ReturnRec(st, None, exc, n.lineno))
         return []
 
@@ -1738,7 +1764,11 @@ class Exec:
                         hs = rec.st
                         if h.name:
                             hs.env[h.name] = StrV(f"<{rec.exc}>")
-                        result += self.run(h.body, hs)
+                        hout = self.run(h.body, hs)
+                        if h.name:                      # Python 3 unbinds the exception variable at the end of the handler
+                            for o_ in hout:
+                                o_.env.pop(h.name, None)
+                        result += hout
                         handled = True
                         break
             if not handled:
